@@ -1,10 +1,33 @@
 """C07 — directory hashes follow the compositional definition."""
 from . import _scn
-from .. import monitors as M
+import random
+from .. import monitors as M, gen
 
 
 def run(ctx):
     scs = _scn.standard_pool(ctx, ctx.scale(70, 1200), ctx.scale(30, 500))
+    # content edits that keep length and modification time ("the content hash changes whenever the content of any
+    # descendant file changes"): seal, rewrite one file in place, print the directory hashes
+    rnd = random.Random(ctx.seed * 31 + 7)
+    for i in range(ctx.scale(25, 300)):
+        fs = gen.FsSim()
+        gen.gen_tree(rnd, fs, max_depth=rnd.choice([1, 2, 3]))
+        files = [p for p in sorted(fs.files) if fs.files[p]]
+        if not files:
+            continue
+        ops = [{"op": "create", "at": "", "h": gen.fmt_subset(rnd, (1, 3)), "now": "2026-03-01 12:00:01"}]
+        if rnd.random() < 0.4:
+            ops.append({"op": "create", "at": "", "h": gen.fmt_subset(rnd, (1, 2)), "now": "2026-03-01 12:00:02"})
+        p = rnd.choice(files)
+        c = fs.files[p]
+        c2 = c[:-1] + ("#" if c[-1] != "#" else "%")
+        ops.append({"op": "write", "path": p, "data": gen.enc(c2), "mtime": 1760000000})
+        for f in [None] + gen.fmt_subset(rnd, (1, 2)):
+            op = {"op": "verifydh", "at": "", "co": True}
+            if f:
+                op["h"] = f
+            ops.append(op)
+        scs.append({"seed": i, "profile": "c07-inplace", "root": "root", "tree": gen.tree_dict(fs), "ops": ops})
     return _scn.run_scn(ctx, scs, M.m_c07, assumptions=["reference evaluation of the compositional definition with the libraries' one-shot digests (harness/oracles.py ref_dirhashes)"])
 
 
